@@ -88,8 +88,9 @@ def cases(spec, ctx):
             target = rng.choice(["P", "Q"])
             names = ["a", "b", "s"] if target == "P" else ["a", "b"]
             yield {"kind": kind, "world": D.random_world(rng, np_=(3, 6), nq=(3, 6), falsy=True),
-                   "target": target, "fields": [[f, rng.choice([0, 0, 1, ""] if f != "s" else ["", "x"])]
+                   "target": target, "fields": [[f, rng.choice([0, 0, 1, "", None, None] if f != "s" else ["", "x", None])]
                                                 for f in rng.sample(names, rng.randint(1, 2))],
+                   "none_at": [rng.randrange(6), rng.randrange(6)],
                    "positional": rng.random() < 0.2, "caching": True}
         elif kind == "flatten":
             parents = [{"k": j, "items": [rng.choice([0, 1, "", "x", None, False, 2]) for _ in range(rng.randint(0, 4))]}
@@ -98,7 +99,8 @@ def cases(spec, ctx):
                 for p_ in parents:
                     p_["items"] = rng.choice([0, 1, "", None, False, 2, "x"])
             yield {"kind": kind, "parents": parents, "sel": rng.choice(["elem", "parent_elem"]),
-                   "cond": rng.choice(["none", "none", "eq0", "ne0", "in_falsy", "parent0"]), "caching": rng.random() < 0.7}
+                   "cond": rng.choice(["none", "eq0", "ne0", "in_falsy", "parent0", "and_ne_eq", "and_ne_eq", "or_eq_eq", "not_and"]),
+                   "lits": [rng.choice(["x", 1, 2, "", 0]), rng.choice(["", 0, False, None])], "caching": rng.random() < 0.7}
         else:
             parents = [{"k": j, "items": [] if rng.random() < 0.5 else [rng.choice([0, 1, "", None, False, 2]) for _ in range(rng.randint(0, 3))]}
                        for j in range(rng.randint(1, 4))]
@@ -166,6 +168,10 @@ def _check_predform(case, ctx):
     world = D.build_world(case["world"])
     T = D.CLASSES[case["target"]]
     dom = world[case["target"]]
+    for f, v in case["fields"]:          # make the None constraints satisfiable: some objects really hold None
+        if v is None:
+            for i in case.get("none_at", []):
+                setattr(dom[i % len(dom)], f, None)
     m = H.labels_of(world)
     exp = [m[id(o)] for o in dom if all(getattr(o, f) == v for f, v in case["fields"])]
     if any(_is_falsy(v) for _, v in case["fields"]):
@@ -194,7 +200,7 @@ def _check_predform(case, ctx):
 
 
 def _check_flatten(case, ctx):
-    from entity_query_language import symbolic_mode, an, entity, set_of, let, in_
+    from entity_query_language import symbolic_mode, an, entity, set_of, let, in_, and_, or_, not_
     from entity_query_language.entity import flatten
     from entity_query_language.cache_data import enable_caching, disable_caching
     ps = [c16.Par(p["k"], list(p["items"]) if isinstance(p["items"], list) else p["items"]) for p in case["parents"]]
@@ -212,6 +218,13 @@ def _check_flatten(case, ctx):
             return x in (0, None, "")
         if c == "parent0":
             return p.k == 0
+        l1, l2 = case.get("lits", ["x", ""])
+        if c == "and_ne_eq":
+            return x != l1 and x == l2
+        if c == "or_eq_eq":
+            return x == l1 or x == l2
+        if c == "not_and":
+            return not (x != l2 and x != l1)
         return True
     exp = []
     for pi, p in enumerate(ps):
@@ -230,16 +243,31 @@ def _check_flatten(case, ctx):
         with symbolic_mode():
             p = let(c16.Par, ps)
             e = flatten(p.items)
+            l1, l2 = case.get("lits", ["x", ""])
             conds = {"eq0": lambda: [e == 0], "ne0": lambda: [e != 0], "in_falsy": lambda: [in_(e, (0, None, ""))],
-                     "parent0": lambda: [p.k == 0], "none": lambda: []}[c]()
+                     "parent0": lambda: [p.k == 0], "none": lambda: [],
+                     "and_ne_eq": lambda: [and_(e != l1, e == l2)], "or_eq_eq": lambda: [or_(e == l1, e == l2)],
+                     "not_and": lambda: [not_(and_(e != l2, e != l1))]}[c]()
             q = an(entity(e, *conds)) if case["sel"] == "elem" else an(set_of([p, e], *conds))
         lab = {id(pp): f"Par{i}" for i, pp in enumerate(ps)}
         got = [(repr(r),) if case["sel"] == "elem" else (lab.get(id(r[p]), "?"), repr(r[e])) for r in q.evaluate()]
     finally:
         enable_caching()
-    if Counter(got) != Counter(exp):
-        ctx.fail("FLATTEN", {"missing": list((Counter(exp) - Counter(got)).elements())[:8],
-                             "extra": list((Counter(got) - Counter(exp)).elements())[:8], "parents": case["parents"]})
+    # the same object twice in ONE inner list: between once per distinct (parent, element) and once per occurrence (see C16)
+    lower = []
+    for pi, p in enumerate(ps):
+        seen = set()
+        for x in inner(p):
+            if id(x) in seen:
+                continue
+            seen.add(id(x))
+            if ok(p, x):
+                lower.append((repr(x),) if case["sel"] == "elem" else (f"Par{pi}", repr(x)))
+    g = Counter(got)
+    miss = list((Counter(lower) - g).elements())
+    extra = list((g - Counter(exp)).elements())
+    if miss or extra:
+        ctx.fail("FLATTEN", {"missing": miss[:8], "extra": extra[:8], "parents": case["parents"]})
     return {"parents": case["parents"], "select": case["sel"], "condition": c, "expected": exp[:6], "observed": got[:6]}
 
 
